@@ -37,6 +37,7 @@ class Snap:
         self.vid: Dict[int, int] = {}      # id(RequestType) -> validator/edge id
         self.hid: Dict[int, int] = {}      # id(RequestType) -> handler id (leaves)
         self.leaves: List[Any] = []
+        self.forwarders: List[Any] = []
         self.tokens = self._walk(rm)
         self.n_edges = len(self.vid)
 
@@ -49,7 +50,15 @@ class Snap:
                 toks += self._walk(rt.func)
             else:
                 h = self.hid.setdefault(id(rt), len(self.hid))
-                self.leaves.append(rt)
+                inner = getattr(getattr(rt.func, "__self__", None), "_request_manager", None)
+                if getattr(rt.func, "__name__", "") == "apply_request" and isinstance(inner, self.RequestManager):
+                    # a route registered with a component's bound `apply_request` instead of its manager: a LEAF for `check_valid`
+                    # (and for the model), but `__call__` forwards through it — it must not be stubbed (a stub would hide the rules
+                    # behind it); the handlers behind it are stubbed instead
+                    self.forwarders.append(rt)
+                    self._walk(inner)
+                else:
+                    self.leaves.append(rt)
                 toks += ["L", str(h)]
         return toks
 
